@@ -594,6 +594,8 @@ def run_idref(run):
         pr = [(a, b) for a in acc for b in acc]
         if len(pr) > cx.n(36, 200):
             pr = rng.sample(pr, cx.n(36, 200))
+        # identities of one name in different modules (the witness family of F411) are always compared
+        pr = list(dict.fromkeys(pr + [(a, b) for a in acc for b in acc if a != b and a.split(b":")[-1] == b.split(b":")[-1]][:8]))
         pairs[d] = (acc[:8], pr)
         for a, b in pr:
             cases += ["cmp %s %s %s" % (d, hx(a), hx(b)), "cmp %s %s %s" % (d, hx(b), hx(a))]
